@@ -28,13 +28,16 @@ CLAIMED = {
  "C04": dict(
    text=("Lean 4 theorems over a hand-written model of get_type/shrink_types/Union/TypedDict merge: for every list of "
          "well-formed values, every nesting and every k the inferred type admits every value (MT.C04.infer_sound), is well-formed, "
-         "and Python == on types identifies only equal-membership types; inference is total (termination proof of shrink). "
-         "The model is tied to /repo on every run by differential testing (exhaustive small scope + seeded random multisets x 6 limits) "
-         "and the property is evaluated directly on the implementation with an independent conformance oracle."),
+         "and Python == on types identifies only equal-membership types; inference is total (termination proof of shrink); and the "
+         "inferred type does not depend on the order or multiplicity of the values: two collections with the same members give == types "
+         "(infer_order_independent, from Lemmas/ShrinkPerm.shrink_setEq, which rests on Ty.eqv being an equivalence relation, "
+         "Lemmas/EqvEquiv). The model is tied to /repo on every run by differential testing (exhaustive small scope + seeded random "
+         "multisets x 6 limits) and the property is evaluated directly on the implementation with an independent conformance oracle, "
+         "including permuted and duplicated variants of every multiset."),
    ref="DESIGN.md section 4 C04, section 3",
    note=("trusted: Lean kernel + propext/Classical.choice/Quot.sound; the hand-written model (Model/Ty,Eqv,Infer) is tied to the code only by "
-         "correspondence on generated cases; the order/multiplicity clause is checked on implementation and model, not yet proved (partial)"),
-   technique="Lean 4 proof (structural + well-founded induction) over a hand-written model + differential correspondence check"),
+         "correspondence on generated cases; hypotheses: values well-formed (string keys of a dict distinct, true of every Python dict)"),
+   technique="Lean 4 proof (structural + well-founded induction; functional induction over shrink for order independence) over a hand-written model + differential correspondence check"),
  "C06": dict(
    text=("Lean 4 theorems: every TypedDict node inside get_type(v,k), inside any merge of inferred types and inside infer k vs has between 1 "
          "and k keys (MT.C06.getType_bound/shrink_bound/infer_bound), so none exists at k=0 (limit_zero_no_typed_dict); a value becomes a "
@@ -198,19 +201,20 @@ CLAIMED = {
          "open findings: KF-C11-td-class-name-collision, KF-C11-same-name-two-modules"),
    technique="Lean 4 proof (mutual structural induction over types: evaluator o strip o render preserves members) + executable correspondence (text, imports, class names, evaluation) + direct evaluation of generated stubs"),
  "C14": dict(
-   text=("Lean 4 theorems with set/dict iteration order, hash seeds and memory layout modelled as arbitrary permutation and duplication of "
-         "lists: the members of typing.Union[...] are exactly the members of its arguments, so they do not depend on argument order or "
-         "multiplicity (mkUnion_members, mkUnion_perm, mkUnion_dup); which keys of a merged TypedDict are required / optional does not "
-         "depend on the order or multiplicity of the merged dicts (reqKeys_perm, optKeys_perm, reqKeys_dup); batch / connection / process "
-         "splits disappear through C09's adds_commute and stale rows through C10. Order-independence of the whole shrink_types result is a "
-         "stated proposition (ShrinkPerm), evaluated not proved. The property itself is checked directly: `stub` is run in fresh interpreter "
-         "processes with different PYTHONHASHSEED values on stores built from permutations, duplications and batch splits of trace pools, "
-         "k in {0,3}, with and without rewriting, and the ast-canonicalised outputs must coincide."),
+   text=("Lean 4 theorems with set/dict iteration order, hash seeds, memory layout, row order and repetition modelled as two lists with the "
+         "same members: shrink_types of such lists gives types that are equal as Python compares them - union members as a set, TypedDict "
+         "fields as a dict, recursively (shrink_set, by functional induction over shrink; corollaries shrink_perm, shrink_dup, infer_set, "
+         "shrinkPerm_holds); Python == on types is an equivalence relation on well-formed types (eqv_equivalence); typing.Union[...] has "
+         "exactly the members of its arguments (mkUnion_members, mkUnion_perm, mkUnion_dup); required / optional keys of a merged TypedDict "
+         "do not depend on order or multiplicity (reqKeys_perm, optKeys_perm, reqKeys_dup); batch / connection / process splits disappear "
+         "through C09's adds_commute and stale rows through C10. The property itself is checked directly: `stub` is run in fresh "
+         "interpreter processes with different PYTHONHASHSEED values on stores built from permutations, duplications and batch splits "
+         "of trace pools, k in {0,3}, with and without rewriting, and the ast-canonicalised outputs must coincide."),
    ref="DESIGN.md section 4 C14",
-   note=("partial: ShrinkPerm not proved; the cross-process comparison is an exploration (model-free direct check). Observation: at library level "
-         "build_module_stubs_from_traces is order-dependent when two generated TypedDict classes collide by name (C11 finding); through the CLI the "
-         "store returns rows GROUP BY-sorted, which masks it"),
-   technique="Lean 4 proof (membership characterisations under permutation) + cross-process differential runs of the real CLI"),
+   note=("partial: proved up to and including the merge; that the rewriters and the renderer map == types to the same text up to member order is "
+         "observed by the cross-process comparison, not proved. Observation: at library level build_module_stubs_from_traces is order-dependent "
+         "when two generated TypedDict classes collide by name (C11 finding); through the CLI the store returns rows GROUP BY-sorted, which masks it"),
+   technique="Lean 4 proof (equivalence-relation lemmas for type equality, functional induction over shrink under set-equality of arguments) + cross-process differential runs of the real CLI"),
  "C15": dict(
    text=("`apply` is libcst's ApplyTypeAnnotationsVisitor driven by MonkeyType; what is MonkeyType's own has Lean 4 theorems: the import remover "
          "that runs under --pep_563 is the identity on every non-import statement and keeps block structure at any nesting depth "
